@@ -25,9 +25,8 @@ MODULE = 'Props.C07'
 THEOREMS = ['C07_env_equal_script', 'C07_env_script_nonvacuous', 'C07_env_module_but_argv0_partial',
             'C07_env_module_nonvacuous', 'C07_argv0_module_refuted',
             'C07_path0_module_setup_elsewhere_refuted', 'C07_setup_once_first_unprofiled',
-            'C07_setup_nonvacuous', 'C07_no_helper_thread_after_run_refuted',
-            'C07_timer_leaks_with_interval', 'C07_no_helper_thread_without_interval',
-            'C07_single_timer_stops']
+            'C07_setup_nonvacuous', 'C07_no_helper_thread_after_run', 'C07_timer_nonvacuous',
+            'C07_single_timer_stops', 'C07_double_creation_would_leak']
 LEVEL = 'proof'
 
 BOOLS = ['l', 'b', 'v', 'o', 'z', 'u', 'pi', 'p', 'i']
@@ -38,6 +37,8 @@ DIMS = [(b, [False, True]) for b in BOOLS] + [('setup', SETUPS), ('target', TARG
 
 F_ARGV0 = 'C07-argv0-module-name'
 F_PATH0 = 'C07-path0-setup-dir-module-mode'
+# the next two were repaired in /repo (204c2e5, f3621b3) and are listed as 'fixed': the ids
+# only label a recurrence, which core.finish reports as a VIOLATION (nothing is suppressed)
 F_TIMER = 'C07-interval-timer-leak'
 F_BV = 'C07-builtin-view-empty-stats-typeerror'
 
@@ -355,6 +356,10 @@ def analyse(r, n):
             if case['l']:
                 unit = '0.001' if case['u'] else '1e-06'
                 ok = first == 'Timer unit: %s s' % unit
+            elif case['b']:
+                # -b without -l: cProfile runs only inside code that uses `profile`; the generated
+                # program never does, and kernprof then prints no report at all
+                ok = first == '' or bool(re.match(r'^\s+\d+ function calls', first))
             else:
                 ok = bool(re.match(r'^\s+\d+ function calls', first))
             if not ok and not any(f[1] == F_BV for f in fails):
@@ -691,9 +696,13 @@ def run(tier, seed):
         dimension_histogram=hist, dispatch_modes_observed={str(k): v for k, v in sorted(modes.items())},
         hypothesis_holds_on=dict(C07_env_equal_script=script_cases, C07_env_module_but_argv0_partial=mod_ok_hyp,
                                  C07_setup_once_first_unprofiled=sum(1 for r, a in analysed if r['case']['setup'] != 'none'),
-                                 C07_timer_leaks_with_interval=sum(1 for s in ispecs if '-i' in s['w']),
-                                 C07_no_helper_thread_without_interval=sum(1 for s in ispecs if '-i' not in s['w'])),
+                                 C07_no_helper_thread_after_run=dict(in_process_with_i=sum(1 for s in ispecs if '-i' in s['w']),
+                                                                     in_process_without_i=sum(1 for s in ispecs if '-i' not in s['w']),
+                                                                     subprocess_with_i=sum(1 for r, a in analysed if r['case']['i']))),
         spec_fails_by_finding=by_finding,
+        failing_aspects_note='spec_fails counts failing ASPECTS (argv0, path0, stderr, rc, ...), several can fail in one case',
+        cases_with_a_failing_aspect=len(fail_idx) + sum(1 for o in iouts if o['live_nondaemon'] != 0),
+        cases_clean=len(analysed) - len(fail_idx) + sum(1 for o in iouts if o['live_nondaemon'] == 0),
         exit_wall_seconds=dict(with_i_min=min(leak_walls) if leak_walls else None, with_i_max=max(leak_walls) if leak_walls else None,
                                without_i_max=max(noleak_walls) if noleak_walls else None,
                                note='measured, not judged: the verdict on prompt termination is the thread state observed in-process and the stderr traceback'),
